@@ -223,6 +223,42 @@ func checkMerge(p *core.Prog, r *core.Report, info *types.Info, fd *ast.FuncDecl
 		r.Bad("MERGE-RANGED", key, pos, "a forced push of an abutting range is not always merged")
 		return
 	}
+	// unforced: merge exactly when a 3'-partial end meets a 5'-partial start (whatever the far ends are)
+	p3, p5 := "", ""
+	for a := range set {
+		switch a {
+		case v + ".Partial.Partial3", "(" + v + ".Partial.Partial3)":
+			p3 = a
+		case u + ".Partial.Partial5", "(" + u + ".Partial.Partial5)":
+			p5 = a
+		}
+	}
+	if p3 == "" || p5 == "" {
+		r.Bad("MERGE-RANGED", key, pos, "the merge condition does not test the two facing markers "+v+".Partial.Partial3 and "+u+".Partial.Partial5 on their own (atoms: "+strings.Join(as, ", ")+"): a test of the whole Partial value also looks at the far end of each fragment, so a middle piece `<a..>b` of a feature cut twice, or a fragment of a feature that was partial to begin with, is never merged back")
+		return
+	}
+	okFacing, okOnly := true, true
+	for m := 0; m < 1<<len(as); m++ {
+		val := map[string]bool{}
+		for i, a := range as {
+			val[a] = m&(1<<i) != 0
+		}
+		t := s.truth(is.Cond, val)
+		if val[p3] && val[p5] && val[abut] && !t {
+			okFacing = false
+		}
+		if t && !val["force"] && !(val[p3] && val[p5]) {
+			okOnly = false
+		}
+	}
+	if !okFacing {
+		r.Bad("MERGE-RANGED", key, pos, "abutting ranges whose facing ends are both partial are not always merged (the condition depends on something else as well)")
+		return
+	}
+	if !okOnly {
+		r.Bad("MERGE-RANGED", key, pos, "an unforced push can merge ranges whose facing ends are not both partial")
+		return
+	}
 	rhs, other := dataAssign(info, is)
 	if len(rhs) != 1 || other {
 		r.Und("MERGE-RANGED", key, pos, "the clause does not store exactly one merged value")
